@@ -306,6 +306,27 @@ fn test_zoned(c: &ZonedCase, cx: &mut Cx) -> CaseResult {
     );
     ensure!(back == zdt && back.offset() == zdt.offset() && back.datetime() == zdt.datetime(), format!("zoned-roundtrip-fields{tag}"), "{ctx}: offset/civil fields differ after the round trip: {back:?}");
     ensure!(back.time_zone() == zdt.time_zone(), "zoned-roundtrip-zone", "{ctx}: time zone differs after the round trip: {:?} vs {:?}", back.time_zone(), zdt.time_zone());
+    // the same text through the other parser configurations that still use the printed offset:
+    // prefer-offset keeps the offset when it is valid for the zone (it is: the zone printed it),
+    // so the instant must come back whatever the disambiguation setting
+    {
+        use jiff::tz::{Disambiguation, OffsetConflict};
+        for (cname, conflict) in [("prefer-offset", OffsetConflict::PreferOffset), ("reject", OffsetConflict::Reject)] {
+            for (dname, dis) in [("compatible", Disambiguation::Compatible), ("earlier", Disambiguation::Earlier), ("later", Disambiguation::Later), ("reject", Disambiguation::Reject)] {
+                let parser = DateTimeParser::new().offset_conflict(conflict).disambiguation(dis);
+                match parser.parse_zoned(&text) {
+                    Ok(b2) => ensure!(
+                        b2.timestamp().as_nanosecond() == ns && b2.offset() == zdt.offset(),
+                        format!("zoned-roundtrip-instant:parser={cname}{tag}"),
+                        "{ctx}: DateTimeParser(offset_conflict={cname}, disambiguation={dname}) parses back to {b2} ({}ns, off by {}ns)",
+                        b2.timestamp().as_nanosecond(),
+                        b2.timestamp().as_nanosecond() - ns
+                    ),
+                    Err(e) => fail!(format!("zoned-reparse-err:parser={cname}{tag}"), "{ctx}: DateTimeParser(offset_conflict={cname}, disambiguation={dname}): {e}"),
+                }
+            }
+        }
+    }
     // independent reader on the RFC 3339 prefix
     match read_rfc3339(&text) {
         Some((civil, o, used)) => {
